@@ -164,7 +164,7 @@ extern "C" void harness(void) {
     int b = L.beg[0], e = L.end[0];
     if (hightmp) { int sp = -1; for (int i = b; i < e; i++) if (g_buf[i] == ' ' && sp < 0) sp = i; if (L.n == 1 && sp > b && all_digits(sp + 1, e)) { if (is_word(b, sp, "max")) { vf_check(r && *r == INT64_MAX, "C15: memory.high.tmp max parses as unlimited"); } else if (all_digits(b, sp) && sp - b <= 18) { vf_check(r && *r == dec(b, sp), "C15: memory.high.tmp parses exactly"); vf_check(false, "REACH: numeric value parsed"); } } }
     else if (L.n == 1 && limit_file && is_word(b, e, "max")) { vf_check(r && *r == INT64_MAX, "C15: `max` in a memory limit file reads as unlimited (INT64_MAX)"); vf_check(false, "REACH: max parsed"); }
-    else if (L.n == 1 && all_digits(b, e) && e - b <= 18) { vf_check(r && *r == dec(b, e), "C15: numeric control file parses exactly"); vf_check(false, "REACH: numeric value parsed"); }
+    else if (L.n == 1 && all_digits(b, e) && (e - b <= 18 || (e - b == 19 && g_buf[b] < '9'))) { vf_check(r && *r == dec(b, e), "C15: numeric control file parses exactly"); vf_check(false, "REACH: numeric value parsed"); }
 #endif
   }
 #endif
